@@ -533,6 +533,10 @@ def rule_leaf_occupancy(ctx, rule='R15.13'):
 
 
 def run(ctx):
+    from . import c13 as _c13
+    _c13.rule_components(ctx)     # R13.5: ghost rings of the tree searches are taken per axis
+    from . import protocol
+    protocol.rule_root_loops(ctx, 'R02.13')
     from . import edges
     edges.rule_box_face_strictness(ctx, 'R15.14')    # a particle on a face of the box is inside, for every test
     edges.rule_threshold_siblings(ctx, 'R01.13')     # one quantity, one literal, one line: leaf test of tree cells
